@@ -93,3 +93,11 @@ CLAIMED['C08'] = (
     'np.linspace edges read as exact k/n; positions in [0,1) (C01); numpy float64/int64 conversion semantics as modelled in symgem.fp; z3 and cvc5 1.4.',
     'DESIGN.md §3 C08')
 NOT_APPLICABLE.pop('C08', None)
+CLAIMED['C09'] = (
+    'symbolic execution of Volume.probability/get_free_energy and the node selection of free_energy_graph; LOG/EXP as uninterpreted functions with instantiated axioms; z3',
+    'For all voxel counts and temperatures in the bound: probabilities are count/total (numerator/denominator of the code\'s quotient), visited voxels carry -k_B T LOG(p) >= 0, '
+    'denser never higher, probabilities sum to one, unvisited voxels carry the largest finite double (>= 1e7, inside the finite range) and are excluded from the graph built with the path threshold.',
+    'LOG/EXP axioms (ln x <= x-1, EXP(LOG x)=x, monotone, bounded below on [1e-12,1]) instead of libm; finiteness as a range check in real arithmetic; '
+    'two-step composition (facts about the grid, then graph builder on arbitrary grids with these facts); z3.',
+    'DESIGN.md §3 C09')
+NOT_APPLICABLE.pop('C09', None)
